@@ -7,5 +7,6 @@ INVARIANT RootIsTotal
 INVARIANT RoundTripLemma
 INVARIANT DictDomain
 INVARIANT FrozenLemma
+INVARIANT NoAliasLemma
 INVARIANT Emit
 CHECK_DEADLOCK FALSE
